@@ -225,45 +225,72 @@ def subItem (op : Bytes) (r : RecView) : Reply :=
     else if r.isNew then { op := op, ty := .new, key := r.key, data := some d }
     else { op := op, ty := .upd, key := r.key, data := some d }
 
-/-- One step of a handler: the observation it makes, the replies it sends, where it continues.
-    An observation that cannot occur at a location leaves the handler where it is. -/
-def step : Pc → Obs → Pc × List Reply
-  -- handleGet
-  | .start (.read .get op _), .got (.error e) => (.fin, [errReply op e])
-  | .start (.read .get op _), .got (.ok r) =>
+/-- `handleGet`: db.Get, MarshalRecord. -/
+def stepGet (m : Msg) (op : Bytes) : Obs → Pc × List Reply
+  | .got (.error e) => (.fin, [errReply op e])
+  | .got (.ok r) =>
     (match r.marshal with
      | .error e => (.fin, [errReply op e])
      | .ok d => (.fin, [{ op := op, ty := .ok, key := r.key, data := some d }]))
-  -- handleQuery: ParseQuery, db.Query
-  | .start (.read .query op _), .res (.error e) => (.fin, [errReply op e])
-  | .start (.read .query op _), .res (.ok _) => (.qloop op false, [])
-  -- handleSub: ParseQuery, db.Subscribe
-  | .start (.read .sub op _), .res (.error e) => (.fin, [errReply op e])
-  | .start (.read .sub op _), .res (.ok _) => (.sloop op, [])
-  -- handleQsub: ParseQuery, registerSub; then processQuery's db.Query
-  | .start (.read .qsub op _), .res (.error e) => (.fin, [errReply op e])
-  | .start (.read .qsub op _), .res (.ok _) => (.qsOpen op, [])
-  | .qsOpen op, .res (.error e) => (.fin, [errReply op e])
-  | .qsOpen op, .res (.ok _) => (.qloop op true, [])
-  -- processQuery's loop
-  | .qloop op ts, .item r => (.qloop op ts, [queryItem op r])
-  | .qloop op _, .closed (some e) => (.fin, [errReply op e])
-  | .qloop op ts, .closed none =>
-    (if ts then .sloop op else .fin, [{ op := op, ty := .done }])
-  | .qloop _ _, .shutdown => (.down, [])
-  -- processSub's loop
-  | .sloop op, .item r => (.sloop op, [subItem op r])
-  | .sloop op, .closed _ => (.fin, [{ op := op, ty := .done }])
-  | .sloop _, .shutdown => (.down, [])
-  -- handleDelete, handlePut, handleInsert
-  | .start (.read .delete op _), .res (.error e) => (.fin, [errReply op e])
-  | .start (.read .delete op _), .res (.ok _) => (.fin, [{ op := op, ty := .success }])
-  | .start (.write _ op _ _), .res (.error e) => (.fin, [errReply op e])
-  | .start (.write _ op _ _), .res (.ok _) => (.fin, [{ op := op, ty := .success }])
-  -- handleCancel: cancelQuery is silent, cancelSub may report
-  | .start (.cancel op), .cancelRes (some e) => (.fin, [errReply op e])
-  | .start (.cancel _), .cancelRes none => (.fin, [])
-  | pc, _ => (pc, [])
+  | _ => (.start m, [])
+
+/-- Opening steps of handleQuery / handleSub / handleQsub (ParseQuery, db.Query / db.Subscribe):
+    an error is reported and ends the handler, success leads to `next`. -/
+def stepOpen (stay next : Pc) (op : Bytes) : Obs → Pc × List Reply
+  | .res (.error e) => (.fin, [errReply op e])
+  | .res (.ok _) => (next, [])
+  | _ => (stay, [])
+
+/-- handleDelete, handlePut, handleInsert: one success or one error. -/
+def stepWrite (m : Msg) (op : Bytes) : Obs → Pc × List Reply
+  | .res (.error e) => (.fin, [errReply op e])
+  | .res (.ok _) => (.fin, [{ op := op, ty := .success }])
+  | _ => (.start m, [])
+
+/-- handleCancel: cancelQuery is silent, cancelSub may report. -/
+def stepCancel (m : Msg) (op : Bytes) : Obs → Pc × List Reply
+  | .cancelRes (some e) => (.fin, [errReply op e])
+  | .cancelRes none => (.fin, [])
+  | _ => (.start m, [])
+
+/-- First step of a dispatched handler. -/
+def stepStart (m : Msg) (o : Obs) : Pc × List Reply :=
+  match m with
+  | .read .get op _ => stepGet m op o
+  | .read .query op _ => stepOpen (.start m) (.qloop op false) op o
+  | .read .sub op _ => stepOpen (.start m) (.sloop op) op o
+  | .read .qsub op _ => stepOpen (.start m) (.qsOpen op) op o
+  | .read .delete op _ => stepWrite m op o
+  | .write _ op _ _ => stepWrite m op o
+  | .cancel op => stepCancel m op o
+  | .malformed => (.start m, [])   -- never dispatched
+  | .unknown _ => (.start m, [])   -- never dispatched
+
+/-- processQuery's loop. -/
+def stepQuery (op : Bytes) (thenSub : Bool) : Obs → Pc × List Reply
+  | .item r => (.qloop op thenSub, [queryItem op r])
+  | .closed (some e) => (.fin, [errReply op e])
+  | .closed none => (if thenSub then .sloop op else .fin, [{ op := op, ty := .done }])
+  | .shutdown => (.down, [])
+  | _ => (.qloop op thenSub, [])
+
+/-- processSub's loop. -/
+def stepSub (op : Bytes) : Obs → Pc × List Reply
+  | .item r => (.sloop op, [subItem op r])
+  | .closed _ => (.fin, [{ op := op, ty := .done }])
+  | .shutdown => (.down, [])
+  | _ => (.sloop op, [])
+
+/-- One step of a handler: the observation it makes, the replies it sends, where it continues.
+    An observation that cannot occur at a location leaves the handler where it is. -/
+def step (pc : Pc) (o : Obs) : Pc × List Reply :=
+  match pc with
+  | .start m => stepStart m o
+  | .qsOpen op => stepOpen (.qsOpen op) (.qloop op true) op o
+  | .qloop op ts => stepQuery op ts o
+  | .sloop op => stepSub op o
+  | .fin => (.fin, [])
+  | .down => (.down, [])
 
 /-- What `Handle` itself sends before returning (no goroutine is dispatched for these). -/
 def syncReplies : Msg → List Reply
@@ -291,8 +318,9 @@ structure Thread where
   pc : Pc
   deriving Repr, DecidableEq, Inhabited
 
-/-- Connection state: the handler goroutines in dispatch order and everything sent so far (as trace
-    events: requests handed to Handle and replies handed to the send function, in global order). -/
+/-- Connection state: one entry per message handed to Handle, in order (its handler goroutine), and
+    everything that happened so far as trace events: requests handed to Handle and replies handed to
+    the send function, in global order. -/
 structure Conn where
   threads : List Thread := []
   trace : List Ev := []
@@ -305,12 +333,13 @@ inductive Act where
 
 def evOfReply (r : Reply) : Ev := .rep r.op r.ty
 
+/-- `deliver`: Handle classifies the message; malformed messages and unknown methods are answered at
+    once (their entry is a handler that has already returned), everything else gets its goroutine. -/
 def connStep (c : Conn) : Act → Conn
   | .deliver msg =>
     let m := classify msg
-    let c1 : Conn := { c with trace := c.trace ++ [.req m.op m.kind] }
-    if m.spawns then { c1 with threads := c1.threads ++ [{ msg := m, pc := .start m }] }
-    else { c1 with trace := c1.trace ++ (syncReplies m).map evOfReply }
+    { threads := c.threads ++ [{ msg := m, pc := if m.spawns then .start m else .fin }],
+      trace := c.trace ++ [.req m.op m.kind] ++ (if m.spawns then [] else (syncReplies m).map evOfReply) }
   | .tstep i o =>
     match c.threads[i]? with
     | none => c
@@ -428,7 +457,7 @@ def view (db k : Bytes) (r : Rec) (deleted : Bool) : RecView :=
 def permitted (r : Rec) : Bool := !r.secret && !r.crown
 
 /-- `Interface.getRecord` through the API's interface. -/
-def getRec (st : St) (key : Bytes) : Except Err (Db × Bytes × Rec) :=
+def getRec (st : St) (key : Bytes) : Except Err (Bytes × Bytes × Rec) :=
   let (dn, k) := parseKey key
   match findDb dn st.dbs with
   | none => .error .nodb
@@ -441,7 +470,7 @@ def getRec (st : St) (key : Bytes) : Except Err (Db × Bytes × Rec) :=
       | some r =>
         if r.expired then .error .notfound
         else if !permitted r then .error .denied
-        else .ok (d, k, r)
+        else .ok (dn, k, r)
 
 def isPrefix : Bytes → Bytes → Bool
   | [], _ => true
@@ -480,17 +509,29 @@ def notify (subs : List SubT) (db k : Bytes) (r : Rec) (deleted : Bool) : List S
       ({ s with pc := pc' } :: rest', out ++ out')
     else (s :: rest', out')
 
+/-- The storage's Put: a key/record store keeps the record, the sinkhole discards it. -/
+def storeIn (d : Db) (k : Bytes) (r : Rec) : Db :=
+  match d.kind with
+  | .plain => { d with recs := insertRec k r d.recs }
+  | .sink => d
+
+/-- `Interface.Put` first reads the existing record's metadata through the API's interface: a valid
+    record the interface may not see makes the write fail. -/
+def putDenied (d : Db) (k : Bytes) : Bool :=
+  match d.kind with
+  | .sink => false
+  | .plain => match lookupRec k d.recs with
+    | some old => !old.expired && !permitted old
+    | none => false
+
 /-- Privileged write (the harness seeding records of every format directly). -/
 def seed (st : St) (key : Bytes) (r : Rec) : St × List Reply :=
   let (dn, k) := parseKey key
   match findDb dn st.dbs with
   | none => (st, [])
   | some d =>
-    let d' := match d.kind with
-      | .plain => { d with recs := insertRec k r d.recs }
-      | .sink => d
     let (subs', out) := notify st.subs dn k r false
-    ({ st with dbs := setDb d' st.dbs, subs := subs' }, out)
+    ({ st with dbs := setDb (storeIn d k r) st.dbs, subs := subs' }, out)
 
 /-- `Interface.Put` / `PutNew` through the API interface: the existing record's metadata is checked,
     then the new wrapper replaces whatever was there. -/
@@ -499,18 +540,10 @@ def putRec (st : St) (key : Bytes) (r : Rec) : Except Err (St × List Reply) :=
   match findDb dn st.dbs with
   | none => .error .nodb
   | some d =>
-    let denied := match d.kind with
-      | .sink => false
-      | .plain => match lookupRec k d.recs with
-        | some old => !old.expired && !permitted old
-        | none => false
-    if denied then .error .denied
+    if putDenied d k then .error .denied
     else
-      let d' := match d.kind with
-        | .plain => { d with recs := insertRec k r d.recs }
-        | .sink => d
       let (subs', out) := notify st.subs dn k r false
-      .ok ({ st with dbs := setDb d' st.dbs, subs := subs' }, out)
+      .ok ({ st with dbs := setDb (storeIn d k r) st.dbs, subs := subs' }, out)
 
 def lookupMap (op : Bytes) : List (Bytes × Nat) → Option Nat
   | [] => none
@@ -562,7 +595,7 @@ def handle (st : St) (msg : Bytes) (an : Annot) : St × List Reply :=
   | .read .get _ key =>
     let o : Obs := match getRec st key with
       | .error e => .got (.error e)
-      | .ok (d, k, r) => .got (.ok (view d.name k r false))
+      | .ok (dn, k, r) => .got (.ok (view dn k r false))
     (st, (runPc (.start m) [o]).2)
   | .read .query _ _ =>
     match an.q with
@@ -596,10 +629,12 @@ def handle (st : St) (msg : Bytes) (an : Annot) : St × List Reply :=
   | .read .delete _ key =>
     match getRec st key with
     | .error e => (st, (runPc (.start m) [.res (.error e)]).2)
-    | .ok (d, k, r) =>
-      let d' := { d with recs := eraseRec k d.recs }
-      let (subs', out) := notify st.subs d.name k r true
-      ({ st with dbs := setDb d' st.dbs, subs := subs' }, out ++ (runPc (.start m) [.res (.ok ())]).2)
+    | .ok (dn, k, r) =>
+      let dbs' := match findDb dn st.dbs with
+        | some d => setDb { d with recs := eraseRec k d.recs } st.dbs
+        | none => st.dbs
+      let (subs', out) := notify st.subs dn k r true
+      ({ st with dbs := dbs', subs := subs' }, out ++ (runPc (.start m) [.res (.ok ())]).2)
   | .write .insert _ key _ =>
     match getRec st key with
     | .error e => (st, (runPc (.start m) [.res (.error e)]).2)
